@@ -24,15 +24,15 @@ From PIQP.gen Require Import Consts.
 
 (* no API call changes the caller's store ... *)
 Theorem C19_store_unchanged_call :
-  forall (K : Consts) (ident : bool) (junk : F) (cp_bits : Z) (st : Store) (sv : option Solver) (c : Call),
-  fst (api_call K ident junk cp_bits st sv c) = st.
+  forall (K : Consts) (ident spc : bool) (junk : F) (cp_bits : Z) (st : Store) (sv : option Solver) (c : Call),
+  fst (api_call K ident spc junk cp_bits st sv c) = st.
 Proof. exact store_unchanged_call. Qed.
 Print Assumptions C19_store_unchanged_call.
 
 (* ... so after any history the store is exactly what the caller's own writes made of it *)
 Theorem C19_store_unchanged :
-  forall (K : Consts) (ident : bool) (junk : F) (cp_bits : Z) (st : Store) (sv : option Solver) (h : list Op),
-  final_store K ident junk cp_bits st sv h = caller_writes st h.
+  forall (K : Consts) (ident spc : bool) (junk : F) (cp_bits : Z) (st : Store) (sv : option Solver) (h : list Op),
+  final_store K ident spc junk cp_bits st sv h = caller_writes st h.
 Proof. exact store_unchanged. Qed.
 Print Assumptions C19_store_unchanged.
 
@@ -40,19 +40,19 @@ Print Assumptions C19_store_unchanged.
    the buffers passed to that call, then every output (and the final solver object) is the same -- whatever the caller did
    to any buffer at any other time, in particular overwriting or freeing buffers after the call that received them *)
 Theorem C19_store_independence :
-  forall (K : Consts) (ident : bool) (junk : F) (cp_bits : Z) (s1 : Store) (h1 : list Op) (s2 : Store) (h2 : list Op),
+  forall (K : Consts) (ident spc : bool) (junk : F) (cp_bits : Z) (s1 : Store) (h1 : list Op) (s2 : Store) (h2 : list Op),
   sim s1 h1 s2 h2 ->
   forall sv : option Solver,
-  outputs K ident junk cp_bits s1 sv h1 = outputs K ident junk cp_bits s2 sv h2 /\
-  snd (fst (run K ident junk cp_bits s1 sv h1)) = snd (fst (run K ident junk cp_bits s2 sv h2)).
+  outputs K ident spc junk cp_bits s1 sv h1 = outputs K ident spc junk cp_bits s2 sv h2 /\
+  snd (fst (run K ident spc junk cp_bits s1 sv h1)) = snd (fst (run K ident spc junk cp_bits s2 sv h2)).
 Proof. exact store_independence. Qed.
 Print Assumptions C19_store_independence.
 
 (* solve() reads no caller memory: between solves the caller may do anything to its store *)
 Theorem C19_solves_ignore_store :
-  forall (K : Consts) (ident : bool) (junk : F) (cp_bits : Z) (h : list Op), only_solves h ->
+  forall (K : Consts) (ident spc : bool) (junk : F) (cp_bits : Z) (h : list Op), only_solves h ->
   forall (s1 s2 : Store) (sv : option Solver),
-  outputs K ident junk cp_bits s1 sv h = outputs K ident junk cp_bits s2 sv (erase_mutations h).
+  outputs K ident spc junk cp_bits s1 sv h = outputs K ident spc junk cp_bits s2 sv (erase_mutations h).
 Proof. exact solves_ignore_store. Qed.
 Print Assumptions C19_solves_ignore_store.
 
@@ -60,14 +60,16 @@ Print Assumptions C19_solves_ignore_store.
    call, calls, and then (twin B) does anything at all to its memory or (twin A) nothing: same outputs, from any two
    initial stores *)
 Theorem C19_scribble_twin :
-  forall (K : Consts) (ident : bool) (junk : F) (cp_bits : Z) (l : list Step),
+  forall (K : Consts) (ident spc : bool) (junk : F) (cp_bits : Z) (l : list Step),
   Forall (fun st => writes (prep st) (call_ids (call st))) l ->
   forall (s1 s2 : Store) (sv : option Solver),
-  outputs K ident junk cp_bits s1 sv (flatten true l) = outputs K ident junk cp_bits s2 sv (flatten false l).
+  outputs K ident spc junk cp_bits s1 sv (flatten true l) = outputs K ident spc junk cp_bits s2 sv (flatten false l).
 Proof. exact scribble_twin. Qed.
 Print Assumptions C19_scribble_twin.
 
-(* (exact rationals under vm_compute are slow: max_iter = 1 and checkpoint rounding to 8 bits keep this file at ~20 s)
+(* (exact rationals are slow, and the independent checker coqchk re-evaluates this file without the VM: the solves of the
+   example use the fault oracle "every factorisation fails" and stop with NUMERICS after max_factor_retires retries -- the
+   cheapest complete pass through solve())
    ---- non-vacuity: a concrete history on a concrete store in which every call is accepted (Ok), the caller frees ALL
    its buffers after setup and again after update, and the outputs equal those of the undisturbed twin ---- *)
 Definition ex_S : Settings :=
@@ -96,9 +98,9 @@ Definition ex_ids2 : BlockIds :=
   {| id_P := None; id_c := Some 1%nat; id_A := None; id_b := None; id_G := None; id_h := None; id_lb := Some 6%nat; id_ub := None |}.
 Definition ex_steps : list Step :=
   [ {| prep := ex_prep1; call := CSetup ex_S 2%nat 1%nat 1%nat ex_ids1; scribble := free_all |};
-    {| prep := fun s => s; call := CSolve (fun _ => false); scribble := free_all |};
+    {| prep := fun s => s; call := CSolve (fun _ => true); scribble := free_all |};
     {| prep := ex_prep2; call := CUpdate ex_ids2 true; scribble := free_all |};
-    {| prep := fun s => s; call := CSolve (fun _ => false); scribble := write_buf 1%nat (VVec []) |} ].
+    {| prep := fun s => s; call := CSolve (fun _ => true); scribble := write_buf 1%nat (VVec []) |} ].
 
 Lemma ex_writes : Forall (fun st => writes (prep st) (call_ids (call st))) ex_steps.
 Proof.
@@ -110,22 +112,22 @@ Definition is_ok (o : Output) : bool := match o with Ok _ => true | Err _ => fal
 
 (* all four calls are accepted (so the equality below compares real results, not error codes) *)
 Example C19_ex_calls_accepted :
-  map is_ok (outputs consts false 0%Qc 8%Z ex_store0 None (flatten true ex_steps)) = [true; true; true; true].
+  map is_ok (outputs consts false false 0%Qc 8%Z ex_store0 None (flatten true ex_steps)) = [true; true; true; true].
 Proof. vm_compute. reflexivity. Qed.
 
 (* the scribbled run (everything freed after every call) equals the undisturbed run *)
 Example C19_ex_twin :
-  outputs consts false 0%Qc 8%Z ex_store0 None (flatten true ex_steps) =
-  outputs consts false 0%Qc 8%Z ex_store0 None (flatten false ex_steps).
+  outputs consts false false 0%Qc 8%Z ex_store0 None (flatten true ex_steps) =
+  outputs consts false false 0%Qc 8%Z ex_store0 None (flatten false ex_steps).
 Proof. apply C19_scribble_twin, ex_writes. Qed.
 
 (* and the caller's buffers are really gone in the scribbled run *)
 Example C19_ex_store_freed :
-  final_store consts false 0%Qc 8%Z ex_store0 None (flatten true ex_steps) 0%nat = None.
+  final_store consts false false 0%Qc 8%Z ex_store0 None (flatten true ex_steps) 0%nat = None.
 Proof. rewrite C19_store_unchanged. reflexivity. Qed.
 
 (* a call that is given a freed buffer is rejected (the caller's error), it does not read stale data *)
 Example C19_ex_dangling_rejected :
-  map is_ok (outputs consts false 0%Qc 8%Z ex_store0 None
+  map is_ok (outputs consts false false 0%Qc 8%Z ex_store0 None
                [OMutate ex_prep1; OMutate (free_buf 1%nat); OCall (CSetup ex_S 2%nat 1%nat 1%nat ex_ids1)]) = [false].
 Proof. vm_compute. reflexivity. Qed.
